@@ -245,6 +245,27 @@ def unroll_nested(factors, sizes, elim_vars, elim_plates, semiring, scales=None)
     return kept, out
 
 
+def _tract(fnames, o):
+    o = {x: ps for x, ps in o.items() if ps}
+    for comp, cvars in _components([(n, None) for n in fnames], set(o)):
+        if not cvars:
+            continue
+        common = None
+        for x in cvars:
+            common = o[x] if common is None else (common & o[x])
+        if not common:
+            return False
+        if not _tract([tuple(c for c in n if c not in common) for n, _ in comp], {x: o[x] - common for x in cvars}):
+            return False
+    return True
+
+
+def tractable(factor_names, elim_vars, elim_plates):
+    """Structure-only version of ``unroll_nested``'s success: the request has a nested-plate reading."""
+    fnames = [tuple(n) for n in factor_names]
+    return _tract(fnames, ordinals(fnames, elim_vars, elim_plates))
+
+
 # ---------------------------------------------------------------------------
 # request validity (structural facts about a request, used to decide what may be demanded)
 
